@@ -49,5 +49,3 @@ func stress(r *mon.Run) {
 	})
 	r.Floor("stress_histories", int64(n*9/10))
 }
-
-func httpMapping(r *mon.Run) {}
